@@ -59,6 +59,10 @@
 /// Common traits and impl.
 pub mod common;
 
+/// Verification hooks, off by default.
+#[cfg(feature = "verif")]
+pub mod verif;
+
 /// Configuration for `EventLoops`.
 #[allow(missing_docs)]
 pub mod config;
